@@ -125,6 +125,19 @@ RoundRelValue(rel, D, largest, smallest, inc, mode) ==
 DateIncRule(largest, smallest, inc) == inc > 1 /\ largest # smallest /\ smallest \in DateUnits
 RoundRel(rel, D, largest, smallest, inc, mode) == IF DateIncRule(largest, smallest, inc) THEN ErrRange ELSE RoundRelValue(rel, D, largest, smallest, inc, mode)
 
+\* PlainDate.until / since WITH rounding options (DifferenceTemporalPlainDate): the difference a -> b in `largest`, rounded relative to a
+\* (RoundRelativeDuration with destination midnight of b); since measures the same a -> b with the mode negated and negates the result
+NegOut(o) == IF o.kind = "ok" THEN Ok(NegDur(o.val)) ELSE o
+DateDiffRounded(a, b, largest, smallest, inc, mode, since) ==
+  LET m == IF since THEN NegateMode(mode) ELSE mode
+      start == DT(a, Midnight)   end == DT(b, Midnight)
+      r == IF a = b THEN Ok(ZeroDur)
+           ELSE LET diff == DiffDTRec(start, end, largest)
+                IN IF smallest = "day" /\ inc = 1 THEN DurNew(ToDur(diff, largest))
+                   ELSE LET rr == RoundRelative(diff, EpochNsOf(end), start, largest, inc, smallest, m)
+                        IN IF rr.kind # "ok" THEN ErrRange ELSE IF rr.outside THEN [kind |-> "any"] ELSE DurNew(ToDur(rr.dur, largest))
+  IN IF since THEN NegOut(r) ELSE r
+
 \* Duration.total(unit, relativeTo: rel) as an exact rational [n, d] (d > 0)
 TotalRel(rel, D, unit) ==
   LET tg == TargetOf(rel, D)
